@@ -971,6 +971,36 @@ def gen_pill_pause_in_batch(seed, mode="loop"):
     return sc
 
 
+def gen_oneshot_resub_at_flush(seed, mode="loop"):
+    """C02: a message matched by a one-shot subscription is still in flight when the topic is subscribed again with other
+    flags (the persistent subscription replaces the one-shot one) and the loop stops, so the message is handed over by the final
+    flush; in the next loop run the topic is published again: the module holds a matching subscription and must get it"""
+    r = random.Random(seed * 157 + 131)
+    sc = Sc(mode, "one-shot subscription replaced while its message is in flight, loop stop, next run seed=%d" % seed)
+    driven_skeleton(sc)
+    R, S2, C = 1, 2, 3
+    sc.mod(R, "rcpt", 0, 0)
+    sc.mod(S2, "sender", 0, 0)
+    sc.mod(C, "control", 0, 0)
+    for m in (R, S2, C):
+        sc.cb(m, "evt", "*", [])
+        sc.main += [("reg", m), ("start", m)]
+    tl = sc.topic(r.choice(["alpha", "beta"]))
+    sc.main += [("sub", R, tl, SRC_ONESHOT | r.choice([0, SRC_DUP]), sc.ud()), ("sub", C, tl, 0, sc.ud())]
+    newfl = r.choice([0, SRC_HIGH, SRC_DUP])
+    where = r.choice(["quit_step", "quit_step", "step_before"])
+    pub = ("publish", S2, tl, sc.pay(), 0)
+    resub = ("sub", R, tl, newfl, sc.ud())
+    if where == "quit_step":
+        run1, last1 = [[], []], [pub, resub]
+    else:
+        run1, last1 = [[], [pub, resub]], []
+    run2 = [[], [("publish", S2, tl, sc.pay(), 0)], [], [], [("publish", S2, tl, sc.pay(), 0)], [], [], []]
+    driven_multi(sc, [run1, run2], [[], []], rng=r, last_ops=[last1, []])
+    finalize_main(sc)
+    return sc
+
+
 def gen_restart_while_leaving(seed, mode="loop"):
     """C01: from the stop callback that its own deregistration runs, a module starts itself again - alone, or after the name
     it just gave up has been registered again by another module: ZOMBIE is final, the call is refused and changes nothing"""
